@@ -401,6 +401,15 @@ impl Out {
                                     span_json(t.ty.span())
                                 ));
                             }
+                            syn::ImplItem::Const(c) => {
+                                self.items.push(format!(
+                                    "{{\"kind\":\"assoc_const\",\"key\":{},\"span\":{},\"ty\":{},\"expr\":{}}}",
+                                    js(&format!("{}{}::{}", prefix, head, c.ident)),
+                                    span_json(c.span()),
+                                    span_json(c.ty.span()),
+                                    span_json(c.expr.span())
+                                ));
+                            }
                             _ => {}
                         }
                     }
